@@ -7,6 +7,7 @@ optimality (KKT) conditions of the minimum-jerk interpolant, for every N.
 -/
 open ST ST.Quintic
 
+namespace QuinticK
 variable {K : Type} [Field K] [CharZero K]
 
 /-- **row identity**: residual of the block row of a knot = jump of (snap, jerk) across it, with factor exactly 1 -/
@@ -157,3 +158,5 @@ theorem quintic_KKT_partial (hs Ps : List K) (bL bR : V2 K) (hne : ∀ h ∈ hs,
     · simp only [List.length_cons, List.length_append, List.length_nil]
       omega
     · simpa [mkSegs, bthomas, rows] using hu
+
+end QuinticK
